@@ -8,6 +8,7 @@
 #ifdef HAVE_IDNKIT
 eav_result_t *is_6531_email(idn_resconf_t ctx, idn_action_t actions, const char *email, size_t length, bool tld_check)
 EMAIL_CONTRACT_6531
+__CPROVER_assigns(rec_u8_ctx, rec_u8_actions)
 __CPROVER_ensures(HOST ==> (rec_u8_ctx == ctx && rec_u8_actions == actions))
 ;
 #include <partial/idnkit/is_6531_email.c>
